@@ -379,6 +379,11 @@ pub fn run(ctx: &Ctx) -> (Spec, Report) {
                     if *l == LangId::Go {
                         c.no_pointer_slice = rng.coin();
                     }
+                    // Python wraps types with custom (de)serialisers (bytes, datetime) in Annotated[..]: the optional
+                    // idiom has to survive that wrapper
+                    if *l == LangId::Python && rng.coin() {
+                        c.type_mappings.insert("Vec<u8>".into(), "bytes".into());
+                    }
                     (*l, c)
                 })
                 .collect();
